@@ -406,7 +406,8 @@ def nontrivial(scn, outs):
         empty = any(not model.split_lines(bytes.fromhex(f["content"])) for f in lay["files"])
         nops = max(len(w["ops"]) for w in scn["worlds"])
         overlap = any(
-            op[0] in ("get_analyzers", "build_registry") and op[-2] and op[-1] and set(op[-2][1]) & set(op[-1][1])
+            op[0] in ("get_analyzers", "build_registry") and op[2 if op[0] == "build_registry" else 1] and op[3 if op[0] == "build_registry" else 2]
+            and set(op[2 if op[0] == "build_registry" else 1][1]) & set(op[3 if op[0] == "build_registry" else 2][1])
             for w in scn["worlds"] for op in w["ops"])
         return dup or crlf or empty or overlap or nops >= 2
     if prop == "C20":
